@@ -33,7 +33,7 @@
    With an enclosing handler the throw does not return (postcondition unsatisfiable = path ends, DESIGN 3.3). */
 void bn_grow(bn_t a, size_t digits)
 __CPROVER_requires(digits <= RLC_BN_SIZE || g_may_throw)
-__CPROVER_assigns(g_ctx.code, g_ctx.last, g_ctx.error, g_ctx.number, g_thrown)
+VC_ASSIGNS(g_ctx.code, g_ctx.last, g_ctx.error, g_ctx.number, g_thrown)
 __CPROVER_ensures(digits <= RLC_BN_SIZE ==> (g_ctx.code == __CPROVER_old(g_ctx.code) && g_ctx.last == __CPROVER_old(g_ctx.last) && g_thrown == __CPROVER_old(g_thrown)))
 __CPROVER_ensures(digits > RLC_BN_SIZE ==> (__CPROVER_old(g_ctx.last) == NULL && g_ctx.code == RLC_ERR && g_ctx.last == &g_ctx.error && g_ctx.number == ERR_NO_PRECI))
 ;
@@ -42,7 +42,7 @@ __CPROVER_ensures(digits > RLC_BN_SIZE ==> (__CPROVER_old(g_ctx.last) == NULL &&
 void bn_trim(bn_t a)
 __CPROVER_requires(VC_BN_FRESH(a))
 __CPROVER_requires(a->alloc == RLC_BN_SIZE && a->used <= RLC_BN_SIZE)
-__CPROVER_assigns(a->used, a->sign, a->dp[0])
+VC_ASSIGNS(a->used, a->sign, a->dp[0])
 __CPROVER_ensures(a->used >= 1 && a->used <= VC_MAX(__CPROVER_old(a->used), 1) && a->alloc == RLC_BN_SIZE)
 __CPROVER_ensures(a->dp[a->used - 1] != 0 || (a->used == 1 && a->sign == RLC_POS))
 __CPROVER_ensures(a->sign == __CPROVER_old(a->sign) || (a->used == 1 && a->dp[0] == 0 && a->sign == RLC_POS))
@@ -56,7 +56,7 @@ void bn_copy(bn_t c, const bn_t a)
 __CPROVER_requires(VC_BN_FRESH(a))
 __CPROVER_requires(VC_REQ2_C(VC_SHAPE_bn_copy, c, a))
 __CPROVER_requires(a->alloc == RLC_BN_SIZE && a->used <= RLC_BN_SIZE && VC_BN_OUT(c))
-__CPROVER_assigns(__CPROVER_object_whole(c), g_ctx.code, g_ctx.last, g_ctx.error, g_ctx.number, g_thrown)
+VC_ASSIGNS(__CPROVER_object_whole(c), g_ctx.code, g_ctx.last, g_ctx.error, g_ctx.number, g_thrown)
 __CPROVER_ensures(g_ctx.code == __CPROVER_old(g_ctx.code) && g_ctx.last == __CPROVER_old(g_ctx.last) && g_thrown == __CPROVER_old(g_thrown))
 __CPROVER_ensures(c == a || (vc_mag(c) == vc_mag(a) && c->used >= 1 && c->used <= VC_MAX(a->used, 1) && c->alloc == RLC_BN_SIZE && \
 	(c->dp[c->used - 1] != 0 || (c->used == 1 && c->sign == RLC_POS)) && (c->sign == a->sign || (c->used == 1 && c->dp[0] == 0))))
@@ -67,7 +67,7 @@ int bn_cmp_abs(const bn_t a, const bn_t b)
 __CPROVER_requires(VC_BN_FRESH(a))
 __CPROVER_requires(VC_BN_SAME(b, a) || VC_BN_FRESH(b))
 __CPROVER_requires(VC_BN_NFMAG(a) && VC_BN_NFMAG(b))
-__CPROVER_assigns()
+VC_ASSIGNS_NONE
 __CPROVER_ensures(__CPROVER_return_value == (vc_mag(a) < vc_mag(b) ? RLC_LT : vc_mag(a) > vc_mag(b) ? RLC_GT : RLC_EQ))
 ;
 
@@ -83,7 +83,7 @@ __CPROVER_requires(VC_REQ3_B(VC_SHAPE_bn_add_imp, a, b))
 __CPROVER_requires(VC_REQ3_C(VC_SHAPE_bn_add_imp, c, a, b))
 __CPROVER_requires(VC_BN_NFMAG(a) && VC_BN_NFMAG(b) && VC_BN_OUT(c) && a->used >= b->used)
 __CPROVER_requires(a->used + 1 <= RLC_BN_SIZE || g_may_throw)
-__CPROVER_assigns(c->used, c->sign, __CPROVER_object_upto(c->dp, sizeof(c->dp)), g_ctx.code, g_ctx.last, g_ctx.caught, g_ctx.error, g_ctx.number, g_thrown)
+VC_ASSIGNS(c->used, c->sign, __CPROVER_object_upto(c->dp, sizeof(c->dp)), g_ctx.code, g_ctx.last, g_ctx.caught, g_ctx.error, g_ctx.number, g_thrown)
 __CPROVER_ensures(g_ctx.code == __CPROVER_old(g_ctx.code) && g_ctx.last == __CPROVER_old(g_ctx.last))
 __CPROVER_ensures(c->used >= 1 && c->used <= RLC_BN_SIZE && c->alloc == RLC_BN_SIZE && (c->dp[c->used - 1] != 0 || (c->used == 1 && c->sign == RLC_POS)))
 __CPROVER_ensures(vc_mag(c) == VC_MAG_OLD(a) + VC_MAG_OLD(b))
@@ -98,7 +98,7 @@ __CPROVER_requires(VC_BN_FRESH(a))
 __CPROVER_requires(VC_REQ3_B(VC_SHAPE_bn_sub_imp, a, b))
 __CPROVER_requires(VC_REQ3_C(VC_SHAPE_bn_sub_imp, c, a, b))
 __CPROVER_requires(VC_BN_NFMAG(a) && VC_BN_NFMAG(b) && VC_BN_OUT(c) && vc_mag(a) >= vc_mag(b))
-__CPROVER_assigns(c->used, c->sign, __CPROVER_object_upto(c->dp, sizeof(c->dp)), g_ctx.code, g_ctx.last, g_ctx.caught, g_ctx.error, g_ctx.number, g_thrown)
+VC_ASSIGNS(c->used, c->sign, __CPROVER_object_upto(c->dp, sizeof(c->dp)), g_ctx.code, g_ctx.last, g_ctx.caught, g_ctx.error, g_ctx.number, g_thrown)
 __CPROVER_ensures(g_ctx.code == __CPROVER_old(g_ctx.code) && g_ctx.last == __CPROVER_old(g_ctx.last))
 __CPROVER_ensures(c->used >= 1 && c->used <= RLC_BN_SIZE && c->alloc == RLC_BN_SIZE && (c->dp[c->used - 1] != 0 || (c->used == 1 && c->sign == RLC_POS)))
 __CPROVER_ensures(vc_mag(c) + VC_MAG_OLD(b) == VC_MAG_OLD(a))
@@ -115,7 +115,7 @@ __CPROVER_requires(VC_REQ3_B(VC_SHAPE_bn_add, a, b))
 __CPROVER_requires(VC_REQ3_C(VC_SHAPE_bn_add, c, a, b))
 __CPROVER_requires(VC_BN_NF(a) && VC_BN_NF(b) && VC_BN_OUT(c))
 __CPROVER_requires(VC_MAX(a->used, b->used) + 1 <= RLC_BN_SIZE || g_may_throw)
-__CPROVER_assigns(__CPROVER_object_whole(c), g_ctx.code, g_ctx.last, g_ctx.caught, g_ctx.error, g_ctx.number, g_thrown)
+VC_ASSIGNS(__CPROVER_object_whole(c), g_ctx.code, g_ctx.last, g_ctx.caught, g_ctx.error, g_ctx.number, g_thrown)
 __CPROVER_ensures(g_ctx.code == __CPROVER_old(g_ctx.code) && g_ctx.last == __CPROVER_old(g_ctx.last))
 __CPROVER_ensures(VC_BN_NF(c) && vc_sval(c) == VC_SVAL_OLD(a) + VC_SVAL_OLD(b))
 ;
@@ -129,7 +129,7 @@ __CPROVER_requires(VC_REQ3_B(VC_SHAPE_bn_sub, a, b))
 __CPROVER_requires(VC_REQ3_C(VC_SHAPE_bn_sub, c, a, b))
 __CPROVER_requires(VC_BN_NF(a) && VC_BN_NF(b) && VC_BN_OUT(c))
 __CPROVER_requires(VC_MAX(a->used, b->used) + 1 <= RLC_BN_SIZE || g_may_throw)
-__CPROVER_assigns(__CPROVER_object_whole(c), g_ctx.code, g_ctx.last, g_ctx.caught, g_ctx.error, g_ctx.number, g_thrown)
+VC_ASSIGNS(__CPROVER_object_whole(c), g_ctx.code, g_ctx.last, g_ctx.caught, g_ctx.error, g_ctx.number, g_thrown)
 __CPROVER_ensures(g_ctx.code == __CPROVER_old(g_ctx.code) && g_ctx.last == __CPROVER_old(g_ctx.last))
 __CPROVER_ensures(VC_BN_NF(c) && vc_sval(c) == VC_SVAL_OLD(a) - VC_SVAL_OLD(b))
 ;
@@ -143,7 +143,7 @@ __CPROVER_requires(VC_BN_FRESH(a))
 __CPROVER_requires(VC_REQ2_C(VC_SHAPE_bn_add_dig, c, a))
 __CPROVER_requires(VC_BN_NF(a) && VC_BN_OUT(c))
 __CPROVER_requires(a->used + 1 <= RLC_BN_SIZE || g_may_throw)
-__CPROVER_assigns(__CPROVER_object_whole(c), g_ctx.code, g_ctx.last, g_ctx.caught, g_ctx.error, g_ctx.number, g_thrown)
+VC_ASSIGNS(__CPROVER_object_whole(c), g_ctx.code, g_ctx.last, g_ctx.caught, g_ctx.error, g_ctx.number, g_thrown)
 __CPROVER_ensures(g_ctx.code == __CPROVER_old(g_ctx.code) && g_ctx.last == __CPROVER_old(g_ctx.last))
 __CPROVER_ensures(VC_BN_NF(c) && vc_sval(c) == VC_SVAL_OLD(a) + (vc_swide)b)
 ;
@@ -155,7 +155,7 @@ __CPROVER_requires(VC_BN_FRESH(a))
 __CPROVER_requires(VC_REQ2_C(VC_SHAPE_bn_sub_dig, c, a))
 __CPROVER_requires(VC_BN_NF(a) && VC_BN_OUT(c))
 __CPROVER_requires(a->used + 1 <= RLC_BN_SIZE || g_may_throw)
-__CPROVER_assigns(__CPROVER_object_whole(c), g_ctx.code, g_ctx.last, g_ctx.caught, g_ctx.error, g_ctx.number, g_thrown)
+VC_ASSIGNS(__CPROVER_object_whole(c), g_ctx.code, g_ctx.last, g_ctx.caught, g_ctx.error, g_ctx.number, g_thrown)
 __CPROVER_ensures(g_ctx.code == __CPROVER_old(g_ctx.code) && g_ctx.last == __CPROVER_old(g_ctx.last))
 __CPROVER_ensures(VC_BN_NF(c) && vc_sval(c) == VC_SVAL_OLD(a) - (vc_swide)b)
 ;
@@ -163,43 +163,43 @@ __CPROVER_ensures(VC_BN_NF(c) && vc_sval(c) == VC_SVAL_OLD(a) - (vc_swide)b)
 /* ---- predicates, comparison, bit access ------------------------------------------------------------------------------ */
 int bn_is_zero(const bn_t a)
 __CPROVER_requires(VC_BN_FRESH(a) && a->used <= RLC_BN_SIZE)
-__CPROVER_assigns()
+VC_ASSIGNS_NONE
 __CPROVER_ensures(__CPROVER_return_value == (a->used == 0 || (a->used == 1 && a->dp[0] == 0)))
 __CPROVER_ensures(VC_BN_NF(a) ==> (__CPROVER_return_value == (vc_mag(a) == 0)))
 ;
 int bn_is_even(const bn_t a)
 __CPROVER_requires(VC_BN_FRESH(a) && VC_BN_NF(a))
-__CPROVER_assigns()
+VC_ASSIGNS_NONE
 __CPROVER_ensures(__CPROVER_return_value == ((vc_mag(a) & 1) == 0))
 ;
 int bn_sign(const bn_t a)
 __CPROVER_requires(VC_BN_FRESH(a))
-__CPROVER_assigns()
+VC_ASSIGNS_NONE
 __CPROVER_ensures(__CPROVER_return_value == a->sign)
 ;
 size_t bn_bits(const bn_t a)
 __CPROVER_requires(VC_BN_FRESH(a) && VC_BN_NF(a))
-__CPROVER_assigns()
+VC_ASSIGNS_NONE
 __CPROVER_ensures(__CPROVER_return_value <= RLC_BN_SIZE * RLC_DIG)
 __CPROVER_ensures((vc_mag(a) >> __CPROVER_return_value) == 0)
 __CPROVER_ensures(__CPROVER_return_value == 0 || ((vc_mag(a) >> (__CPROVER_return_value - 1)) == 1))
 ;
 int bn_get_bit(const bn_t a, uint_t bit)
 __CPROVER_requires(VC_BN_FRESH(a) && VC_BN_NF(a))
-__CPROVER_assigns()
+VC_ASSIGNS_NONE
 __CPROVER_ensures(bit < RLC_DIG * VC_W ==> __CPROVER_return_value == (int)((vc_mag(a) >> bit) & 1))
 __CPROVER_ensures(bit >= RLC_DIG * VC_W ==> __CPROVER_return_value == 0)
 ;
 int bn_cmp_dig(const bn_t a, dig_t b)
 __CPROVER_requires(VC_BN_FRESH(a) && VC_BN_NF(a))
-__CPROVER_assigns()
+VC_ASSIGNS_NONE
 __CPROVER_ensures(__CPROVER_return_value == (vc_sval(a) < (vc_swide)b ? RLC_LT : vc_sval(a) > (vc_swide)b ? RLC_GT : RLC_EQ))
 ;
 int bn_cmp(const bn_t a, const bn_t b)
 __CPROVER_requires(VC_BN_FRESH(a))
 __CPROVER_requires(VC_BN_SAME(b, a) || VC_BN_FRESH(b))
 __CPROVER_requires(VC_BN_NF(a) && VC_BN_NF(b))
-__CPROVER_assigns()
+VC_ASSIGNS_NONE
 __CPROVER_ensures(__CPROVER_return_value == (vc_sval(a) < vc_sval(b) ? RLC_LT : vc_sval(a) > vc_sval(b) ? RLC_GT : RLC_EQ))
 ;
 
@@ -211,7 +211,7 @@ void bn_abs(bn_t c, const bn_t a)
 __CPROVER_requires(VC_BN_FRESH(a))
 __CPROVER_requires(VC_REQ2_C(VC_SHAPE_bn_abs, c, a))
 __CPROVER_requires(VC_BN_NF(a) && VC_BN_OUT(c))
-__CPROVER_assigns(__CPROVER_object_whole(c), g_ctx.code, g_ctx.last, g_ctx.error, g_ctx.number, g_thrown)
+VC_ASSIGNS(__CPROVER_object_whole(c), g_ctx.code, g_ctx.last, g_ctx.error, g_ctx.number, g_thrown)
 __CPROVER_ensures(g_ctx.code == __CPROVER_old(g_ctx.code) && g_ctx.last == __CPROVER_old(g_ctx.last))
 __CPROVER_ensures(VC_BN_NF(c) && c->sign == RLC_POS && vc_mag(c) == VC_MAG_OLD(a))
 ;
@@ -222,24 +222,24 @@ void bn_neg(bn_t c, const bn_t a)
 __CPROVER_requires(VC_BN_FRESH(a))
 __CPROVER_requires(VC_REQ2_C(VC_SHAPE_bn_neg, c, a))
 __CPROVER_requires(VC_BN_NF(a) && VC_BN_OUT(c))
-__CPROVER_assigns(__CPROVER_object_whole(c), g_ctx.code, g_ctx.last, g_ctx.error, g_ctx.number, g_thrown)
+VC_ASSIGNS(__CPROVER_object_whole(c), g_ctx.code, g_ctx.last, g_ctx.error, g_ctx.number, g_thrown)
 __CPROVER_ensures(g_ctx.code == __CPROVER_old(g_ctx.code) && g_ctx.last == __CPROVER_old(g_ctx.last))
 __CPROVER_ensures(VC_BN_NF(c) && vc_sval(c) == -VC_SVAL_OLD(a))
 ;
 void bn_zero(bn_t a)
 __CPROVER_requires(VC_BN_FRESH(a) && VC_BN_OUT(a))
-__CPROVER_assigns(__CPROVER_object_whole(a))
+VC_ASSIGNS(__CPROVER_object_whole(a))
 __CPROVER_ensures(VC_BN_NF(a) && a->used == 1 && a->dp[0] == 0 && vc_val(a->dp, RLC_BN_SIZE) == 0)
 ;
 void bn_set_dig(bn_t a, dig_t digit)
 __CPROVER_requires(VC_BN_FRESH(a) && VC_BN_OUT(a))
-__CPROVER_assigns(__CPROVER_object_whole(a))
+VC_ASSIGNS(__CPROVER_object_whole(a))
 __CPROVER_ensures(VC_BN_NF(a) && vc_sval(a) == (vc_swide)digit)
 ;
 void bn_set_2b(bn_t a, size_t b)
 __CPROVER_requires(VC_BN_FRESH(a) && VC_BN_OUT(a))
 __CPROVER_requires(b < RLC_BN_SIZE * RLC_DIG || g_may_throw)
-__CPROVER_assigns(__CPROVER_object_whole(a), g_ctx.code, g_ctx.last, g_ctx.error, g_ctx.number, g_thrown)
+VC_ASSIGNS(__CPROVER_object_whole(a), g_ctx.code, g_ctx.last, g_ctx.error, g_ctx.number, g_thrown)
 __CPROVER_ensures(b < RLC_BN_SIZE * RLC_DIG ==> (VC_BN_NF(a) && vc_sval(a) == (((vc_swide)1) << b) && g_ctx.code == __CPROVER_old(g_ctx.code)))
 __CPROVER_ensures(b >= RLC_BN_SIZE * RLC_DIG ==> g_ctx.code == RLC_ERR)
 ;
@@ -253,7 +253,7 @@ __CPROVER_requires(VC_BN_FRESH(a))
 __CPROVER_requires(VC_REQ2_C(VC_SHAPE_bn_dbl, c, a))
 __CPROVER_requires(VC_BN_NF(a) && VC_BN_OUT(c))
 __CPROVER_requires(a->used + 1 <= RLC_BN_SIZE || g_may_throw)
-__CPROVER_assigns(__CPROVER_object_whole(c), g_ctx.code, g_ctx.last, g_ctx.caught, g_ctx.error, g_ctx.number, g_thrown)
+VC_ASSIGNS(__CPROVER_object_whole(c), g_ctx.code, g_ctx.last, g_ctx.caught, g_ctx.error, g_ctx.number, g_thrown)
 __CPROVER_ensures(g_ctx.code == __CPROVER_old(g_ctx.code) && g_ctx.last == __CPROVER_old(g_ctx.last))
 __CPROVER_ensures(VC_BN_NF(c) && vc_sval(c) == VC_SVAL_OLD(a) + VC_SVAL_OLD(a))
 ;
@@ -265,7 +265,7 @@ void bn_hlv(bn_t c, const bn_t a)
 __CPROVER_requires(VC_BN_FRESH(a))
 __CPROVER_requires(VC_REQ2_C(VC_SHAPE_bn_hlv, c, a))
 __CPROVER_requires(VC_BN_NF(a) && VC_BN_OUT(c))
-__CPROVER_assigns(__CPROVER_object_whole(c), g_ctx.code, g_ctx.last, g_ctx.error, g_ctx.number, g_thrown)
+VC_ASSIGNS(__CPROVER_object_whole(c), g_ctx.code, g_ctx.last, g_ctx.error, g_ctx.number, g_thrown)
 __CPROVER_ensures(g_ctx.code == __CPROVER_old(g_ctx.code) && g_ctx.last == __CPROVER_old(g_ctx.last))
 __CPROVER_ensures(VC_BN_NF(c) && vc_mag(c) == (VC_MAG_OLD(a) >> 1) && (c->sign == __CPROVER_old(a->sign) || vc_mag(c) == 0))
 ;
@@ -277,7 +277,7 @@ __CPROVER_requires(VC_BN_FRESH(a))
 __CPROVER_requires(VC_REQ2_C(VC_SHAPE_bn_lsh, c, a))
 __CPROVER_requires(VC_BN_NF(a) && VC_BN_OUT(c) && bits <= 4 * RLC_BN_SIZE * RLC_DIG)
 __CPROVER_requires(a->used + bits / RLC_DIG + (bits % RLC_DIG > 0) <= RLC_BN_SIZE || g_may_throw)
-__CPROVER_assigns(__CPROVER_object_whole(c), g_ctx.code, g_ctx.last, g_ctx.caught, g_ctx.error, g_ctx.number, g_thrown)
+VC_ASSIGNS(__CPROVER_object_whole(c), g_ctx.code, g_ctx.last, g_ctx.caught, g_ctx.error, g_ctx.number, g_thrown)
 __CPROVER_ensures(g_ctx.code == __CPROVER_old(g_ctx.code) && g_ctx.last == __CPROVER_old(g_ctx.last))
 __CPROVER_ensures(VC_BN_NF(c) && vc_mag(c) == (VC_MAG_OLD(a) << bits) && (c->sign == __CPROVER_old(a->sign) || vc_mag(c) == 0))
 ;
@@ -288,7 +288,7 @@ void bn_rsh(bn_t c, const bn_t a, uint_t bits)
 __CPROVER_requires(VC_BN_FRESH(a))
 __CPROVER_requires(VC_REQ2_C(VC_SHAPE_bn_rsh, c, a))
 __CPROVER_requires(VC_BN_NF(a) && VC_BN_OUT(c) && bits <= 4 * RLC_BN_SIZE * RLC_DIG)
-__CPROVER_assigns(__CPROVER_object_whole(c), g_ctx.code, g_ctx.last, g_ctx.caught, g_ctx.error, g_ctx.number, g_thrown)
+VC_ASSIGNS(__CPROVER_object_whole(c), g_ctx.code, g_ctx.last, g_ctx.caught, g_ctx.error, g_ctx.number, g_thrown)
 __CPROVER_ensures(g_ctx.code == __CPROVER_old(g_ctx.code) && g_ctx.last == __CPROVER_old(g_ctx.last))
 __CPROVER_ensures(VC_BN_NF(c) && vc_mag(c) == (bits < RLC_DIG * VC_W ? (VC_MAG_OLD(a) >> bits) : (vc_wide)0) && (c->sign == __CPROVER_old(a->sign) || vc_mag(c) == 0))
 ;
@@ -296,7 +296,7 @@ __CPROVER_ensures(VC_BN_NF(c) && vc_mag(c) == (bits < RLC_DIG * VC_W ? (VC_MAG_O
 /* number of significant bits of a digit (x64: lzcnt instruction through a context function pointer - trusted there;
    ARCH=none: table implementation, enforced) */
 size_t util_bits_dig(dig_t a)
-__CPROVER_assigns()
+VC_ASSIGNS_NONE
 __CPROVER_ensures(__CPROVER_return_value <= RLC_DIG)
 __CPROVER_ensures(((vc_dbl)a >> __CPROVER_return_value) == 0)
 __CPROVER_ensures(__CPROVER_return_value == 0 || ((vc_dbl)a >> (__CPROVER_return_value - 1)) == 1)
